@@ -438,15 +438,17 @@ EXT_CONTENT = {  # normalised call -> id
 }
 EXT_UNKNOWN = "Ok((i,TlsExtension::Unknown(TlsExtensionType(ext_type),ext_data),))"
 EXT_PRE = ("let(i,ext_type)=be_u16(i)?;let(i,ext_data)=length_data(be_u16)(i)?;"
-           "ifext_type&MASK==VAL{returnOk((i,TlsExtension::Grease(ext_type,ext_data)));}"
+           "ifext_type&MASK==VALSAME{returnOk((i,TlsExtension::Grease(ext_type,ext_data)));}"
            "letext_len=ext_data.len()asu16;let(_,ext)=")
+# optional second conjunct of the GREASE test: both bytes of the type are equal (RFC 8701)
+EXT_SAME = "&&ext_type>>8==ext_type&0xff"
 def t5_ext_dispatch(fname):
     src = strip_comments(read("src/tls_extensions.rs"))
     body = fn_body(src, fname, "src/tls_extensions.rs")
     pre = nows(body.split("match ext_type")[0])
-    m = re.fullmatch(re.escape(EXT_PRE).replace("MASK", "(0x[0-9a-fA-F_]+|[0-9_]+)").replace("VAL", "(0x[0-9a-fA-F_]+|[0-9_]+)"), pre)
+    m = re.fullmatch(re.escape(EXT_PRE).replace("MASK", "(0x[0-9a-fA-F_]+|[0-9_]+)").replace("VALSAME", "(0x[0-9a-fA-F_]+|[0-9_]+)(" + re.escape(EXT_SAME) + ")?"), pre)
     if not m: raise Untranslatable("%s prologue changed: %r" % (fname, pre))
-    mask, val = eval_int(m.group(1), fname), eval_int(m.group(2), fname)
+    mask, val, same = eval_int(m.group(1), fname), eval_int(m.group(2), fname), bool(m.group(3))
     blk, post = find_match(body, r"ext_type", fname)
     if nows(post) != "?;Ok((i,ext))": raise Untranslatable("%s epilogue changed: %r" % (fname, nows(post)))
     rows, dflt = [], False
@@ -460,7 +462,7 @@ def t5_ext_dispatch(fname):
         if r not in EXT_CONTENT: raise Untranslatable("%s: arm body %r" % (fname, rhs))
         rows.append((eval_int(pat, fname), EXT_CONTENT[r]))
     if not dflt: raise Untranslatable("%s: no default arm" % fname)
-    return mask, val, rows
+    return mask, val, same, rows
 
 TAG_PARSERS = ["sni", "max_fragment_length", "status_request", "elliptic_curves", "ec_point_formats",
                "signature_algorithms", "heartbeat", "encrypt_then_mac", "extended_master_secret",
@@ -498,12 +500,13 @@ def gen_dispatch(consts):
     masks = set()
     for short, fname in (("generic", "parse_tls_extension"), ("client", "parse_tls_client_hello_extension"),
                          ("server", "parse_tls_server_hello_extension")):
-        mask, val, rows = t5_ext_dispatch(fname)
-        masks.add((mask, val))
+        mask, val, same, rows = t5_ext_dispatch(fname)
+        masks.add((mask, val, same))
         L.append("Definition %s_table : list (N * ext_content_id) := %s." % (short, fmt_rows(rows)))
     if len(masks) != 1: raise Untranslatable("the three dispatchers use different GREASE tests: %r" % masks)
-    mask, val = masks.pop()
+    mask, val, same = masks.pop()
     L.append("Definition grease_mask : N := %d.\nDefinition grease_val : N := %d." % (mask, val))
+    L.append("(* the GREASE test also requires both bytes of the type to be equal *)\nDefinition grease_same_bytes : bool := %s." % ("true" if same else "false"))
     tags = t5_tags()
     L.append("Definition tag_of_%s : N := %d." % ("x", 0) if False else "")
     for nm, v, _ in tags:
